@@ -8,6 +8,7 @@ for e in json.load(open(sys.argv[1])):
     d = os.path.join(V, 'seeded', e['label'])
     os.makedirs(d, exist_ok=True)
     shutil.copy(os.path.join(e['src'], 'patch.diff'), d + '/patch.diff')
+    os.makedirs(os.path.dirname(d + '/' + e['demo']), exist_ok=True)
     shutil.copy(os.path.join(e['src'], e['demo']), d + '/' + e['demo'])
     if os.path.exists(os.path.join(e['src'], 'notes.md')):
         shutil.copy(os.path.join(e['src'], 'notes.md'), d + '/author_notes.md')
